@@ -142,6 +142,13 @@ pub fn member_witnesses(ops: &[AOp], k: KSet, path: &[u8], m: u8) -> Clk {
 }
 
 fn reg_values(ops: &[AOp], k: KSet, path: &[u8]) -> Vec<u64> {
+    let mut vals: Vec<u64> = reg_visible(ops, k, path).into_iter().map(|(_, v)| v).collect();
+    vals.sort();
+    vals
+}
+
+/// the causally maximal, surviving writes of the register at `path`: (op index, value)
+fn reg_visible(ops: &[AOp], k: KSet, path: &[u8]) -> Vec<(usize, u64)> {
     let mut vals = vec![];
     for (i, o) in ops.iter().enumerate() {
         if !has(k, i) {
@@ -158,11 +165,10 @@ fn reg_values(ops: &[AOp], k: KSet, path: &[u8]) -> Vec<u64> {
                     && has(w.seen, i)
             });
             if !superseded {
-                vals.push(*v);
+                vals.push((i, *v));
             }
         }
     }
-    vals.sort();
     vals
 }
 
@@ -538,20 +544,15 @@ fn reset_body(shape: &Shape, ops: &[AOp], k: KSet, path: &[u8], c: &Clk, univers
         Shape::Reg => {
             // a value goes when every dot of the context it was written with is covered
             let mut vals = vec![];
-            for (i, o) in ops.iter().enumerate() {
-                if !has(k, i) {
-                    continue;
-                }
-                if let (Some(n), AInfo::Dotted { path: p, leaf: Leaf::Write(v) }) = (o.dot, &o.info) {
-                    if p.as_slice() != path || !reg_values(ops, k, path).contains(v) {
-                        continue;
-                    }
-                    let base = if path.is_empty() { closure(ops, o.k_read) } else { o.k_read };
-                    let mut ctx = clock_of(ops, base);
+            for (i, v) in reg_visible(ops, k, path) {
+                let o = &ops[i];
+                let base = if path.is_empty() { closure(ops, o.k_read) } else { o.k_read };
+                let mut ctx = clock_of(ops, base);
+                if let Some(n) = o.dot {
                     clk_bump(&mut ctx, o.author, n);
-                    if !clk_reset(&ctx, c).is_empty() {
-                        vals.push(*v);
-                    }
+                }
+                if !clk_reset(&ctx, c).is_empty() {
+                    vals.push(v);
                 }
             }
             vals.sort();
@@ -579,17 +580,13 @@ pub fn expect_after_reset(family: &Family, ops: &[AOp], k: KSet, c: &Clk, univer
             let add = if matches!(shape, Shape::Reg) {
                 // join of the reduced contexts of the surviving values
                 let mut add = Clk::new();
-                for (i, o) in ops.iter().enumerate() {
-                    if !has(k, i) {
-                        continue;
+                for (i, _) in reg_visible(ops, k, &[]) {
+                    let o = &ops[i];
+                    let mut ctx = clock_of(ops, closure(ops, o.k_read));
+                    if let Some(n) = o.dot {
+                        clk_bump(&mut ctx, o.author, n);
                     }
-                    if let (Some(n), AInfo::Dotted { leaf: Leaf::Write(v), .. }) = (o.dot, &o.info) {
-                        if reg_values(ops, k, &[]).contains(v) {
-                            let mut ctx = clock_of(ops, closure(ops, o.k_read));
-                            clk_bump(&mut ctx, o.author, n);
-                            add = clk_join(&add, &clk_reset(&ctx, c));
-                        }
-                    }
+                    add = clk_join(&add, &clk_reset(&ctx, c));
                 }
                 add
             } else {
